@@ -60,6 +60,20 @@ Theorem C36_recover_refuted_lost_write :
 Proof. exact recover_refuted_lost_write. Qed.
 Print Assumptions C36_recover_refuted_lost_write.
 
+(** What does hold, for every history (memtable ids grow): the flush remover
+    and the recovery cleanup never remove a segment holding writes of a memtable
+    that is not installed as a table; and when no raft group shares the WAL
+    (the excluded class: [no_raft ops = false]) every remover - flush, watchdog,
+    recovery cleanup - is safe. *)
+Theorem C36_safe_partial : forall ids act ops,
+  (0 < act)%N -> fresh_rotations act ops ->
+  let s := run (init ids act) ops in
+  (forall id, In id (snd (step s WFlush)) -> ~ lsm_needed s (fst (step s WFlush)) id) /\
+  (forall id, In id (recovery_removed s) -> ~ lsm_needed s s id) /\
+  (no_raft ops = true -> (forall o, is_raft_op o = false -> safe_step s o) /\ safe_recovery s).
+Proof. exact safe_partial. Qed.
+Print Assumptions C36_safe_partial.
+
 (** The boolean oracle used by the correspondence check decides the specification. *)
 Theorem C36_oracle_decides : forall pre post id, needed_b pre post id = true <-> needed pre post id.
 Proof. exact needed_b_spec. Qed.
